@@ -155,6 +155,9 @@ XLSX_MODELS = [
     {'DATA': {'A1': 7, 'A2': 'txt', 'B1': '=SUM(A1:A2)', 'B2': '=A2&"!"'}, 'My Sheet': {'A1': "=DATA!B1*2", 'A2': '=NOSUCHFN(DATA!A1)'}},
     {'S.1': {'A1': True, 'A2': '=IF(A1,UNDEFINED_NAME,0)', 'A3': '=ISERROR(A2)', 'B1': "it's", 'B2': '=LEN(B1)'}},
     {'DATA': {'A1': 1, 'A2': 2, 'A3': 3, 'C1': '=SUM(A:A)', 'C2': '=A1:A3 A2:A2', 'C3': '=Other!A1', 'C4': '=C3+1'}, 'Other': {'A1': 5}},
+    # text constants (string-typed cells, marked ('text', ...)) that look like formulas, with and without quotes
+    {'T': {'A1': ('text', '=say "hi"'), 'A2': ('text', '=plain'), 'A3': ('text', 'a "quoted" word'), 'A4': ('text', '="'),
+           'B1': '=LEN(A1)', 'B2': '=A2&"!"', 'B3': '=A3', 'B4': '=LEN(A4)'}},
 ]
 
 
@@ -179,7 +182,12 @@ def _check_xlsx(i):
         for sheet, cells in XLSX_MODELS[i].items():
             ws = wb.create_sheet(sheet)
             for ref, v in cells.items():
-                ws[ref] = v
+                if isinstance(v, tuple):
+                    ws[ref] = 'x'
+                    ws[ref].value = v[1]
+                    ws[ref].data_type = 's'       # a text cell, whatever its content looks like
+                else:
+                    ws[ref] = v
         path = os.path.join(d, 'book.xlsx')
         wb.save(path)
         m1 = formulas.ExcelModel().loads(path).finish()
@@ -206,8 +214,8 @@ def _check_xlsx(i):
 
 BOUNDED = [
     Stage('B3:json-round-trip-of-workbooks-loaded-from-file', 'C09', _xlsx_cases, _check_xlsx,
-          '4 small workbooks written to a scratch directory (dangling sheet / file / name references, unknown functions, whole-column and '
-          'intersection references, sheet names that need quoting), loaded from file, exported and re-imported', parallel=False),
+          '5 small workbooks written to a scratch directory (dangling sheet / file / name references, unknown functions, whole-column and '
+          'intersection references, sheet names that need quoting, text cells that look like formulas and contain quotes), loaded from file, exported and re-imported', parallel=False),
     Stage('B1:exported-text-parses-back-to-the-same-formula', 'C09', _reparse_cases, _check_reparse,
           'random trees of the C01 generator (depth 1..4, 2 spelling styles) and reference expressions (range / intersection / union, '
           'nested to depth 2) as function arguments: get_expr(ast("=" + get_expr(ast(f)))) == get_expr(ast(f)); 2500 quick / 66000 thorough',
